@@ -75,6 +75,7 @@ type verifC16Pool struct {
 	idle      map[arvados.InstanceType]int
 	unalloc   map[arvados.InstanceType]int // idle+booting
 	mode      map[arvados.InstanceType]byte
+	starts    map[arvados.InstanceType]int
 	running   map[string]time.Time
 	linger    map[string]bool
 }
@@ -147,6 +148,9 @@ func (p *verifC16Pool) StartContainer(it arvados.InstanceType, ctr arvados.Conta
 	case 'f':
 	case 's':
 		ok = true
+	case 'x':
+		// the first StartContainer on this type fails, later ones succeed
+		ok = p.starts[it] > 0
 	default:
 		if p.idle[it] > 0 {
 			p.idle[it]--
@@ -154,6 +158,7 @@ func (p *verifC16Pool) StartContainer(it arvados.InstanceType, ctr arvados.Conta
 			ok = true
 		}
 	}
+	p.starts[it]++
 	if ok {
 		p.running[ctr.UUID] = time.Time{}
 	}
@@ -216,13 +221,14 @@ func verifC16Case(line string) (out string) {
 		idle:      map[arvados.InstanceType]int{},
 		unalloc:   map[arvados.InstanceType]int{},
 		mode:      map[arvados.InstanceType]byte{},
+		starts:    map[arvados.InstanceType]int{},
 		running:   map[string]time.Time{},
 		linger:    map[string]bool{},
 	}
 	if f[2] != "-" {
 		for id, s := range strings.Split(f[2], ",") {
 			p := strings.Split(s, ":")
-			if len(p) != 3 || len(p[2]) != 1 || !strings.Contains("ifs", p[2]) {
+			if len(p) != 3 || len(p[2]) != 1 || !strings.Contains("ifsx", p[2]) {
 				return "bad-op"
 			}
 			idle, err1 := strconv.Atoi(p[0])
